@@ -161,7 +161,11 @@ def build(t, v, dest, writes):
 
 def apply_write(p, w):
     side, path, val = w
+    via_view = side.endswith("-view")
+    side = side.split("-")[0]
     h = p.src if side == "src" else p.copy
+    if via_view:
+        h = xt.build(p.t)._from_buffer(h._buffer, h._offset)
     hand.assign(p.t, h, path, val)
     shared = p.dest.split(":")[0] == "same" and any(q in ("*", "#") for q in path)
     if side == "src" or shared:
@@ -254,6 +258,10 @@ def writes_menu(p, n):
             c = hist.leaf_candidates(lt, lv, room, n)
             if c:
                 out.append((side, path, c[0]))
+                if p.t[0] != "U":
+                    # the same write through ANOTHER python object for the same storage (a view rebuilt from buffer and
+                    # offset): the handle that was copied from, and is copied from again afterwards, has not seen it
+                    out.append((side + "-view", path, c[0]))
     return out
 
 
